@@ -18,7 +18,11 @@ package defaults
 //@   ensures[C15,C10] redirects_once: !panics ==> ((emits HTTPRedirect(_, _, _)) && result == nil)
 //@
 //@ func (Redirector).redirectAPI
-//@   property C15 C16 C10
+//@   property C15 C16 C10 C08
+//@   -- C08: the refusal of the access middleware reaches an API client with the status the
+//@   -- middleware chose (307) - a redirect status only becomes 200 when the integrator asked for it
+//@   ensures[C08] status_as_asked: each WriteHeader(_, ?cd) =>
+//@       cd == ite(r.CorceRedirectTo200 && (ro.Code == 307 || ro.Code == 308), 200, ro.Code)
 //@   -- C10: the JSON answer is written unless the renderer itself failed; the request's redir
 //@   -- parameter never turns a redirect into an error
 //@   ensures[C10] answers_unless_render_fails: !panics ==> ((emits Write(_, _)) || (emits Render(_, _) -> (_, _, ?e) :: e != nil && result == e))
@@ -90,7 +94,15 @@ package defaults
 //@ -- submitted ones, and the extra fields are whitelisted keys with their submitted values).
 //@ spec in_list(l, q) := exists j int :: 0 <= j && j < len(l) && elem(l, j) == q
 //@ func (HTTPBodyReader).Read
-//@   property C19 C17
+//@   property C19 C17 C06 C01
+//@   -- C01/C06: the password a login compares and a recovery hashes is the submitted one: the
+//@   -- validator's fields are the entries of the value map as read (URLValuesToMap: verbatim)
+//@   ensures[C01,C06] login_values_as_read: (page == "login" && result.1 == nil) ==> (dyntype(result.0) == "UserValues" &&
+//@       dyn(result.0, "Password") == mapget(dyn(result.0, "HTTPFormValidator.Values"), "password") &&
+//@       dyn(result.0, "PID") == mapget(dyn(result.0, "HTTPFormValidator.Values"), ite(h.UseUsername, "username", "email")))
+//@   ensures[C01,C06] recover_values_as_read: (page == "recover_end" && result.1 == nil) ==> (dyntype(result.0) == "RecoverEndValues" &&
+//@       dyn(result.0, "NewPassword") == mapget(dyn(result.0, "HTTPFormValidator.Values"), "password") &&
+//@       dyn(result.0, "Token") == mapget(dyn(result.0, "HTTPFormValidator.Values"), "token"))
 //@   -- C17: the reader sees the raw body (password, codes, tokens); nothing of it goes into a
 //@   -- log line or into the error it returns (which the error handler logs)
 //@   ensures[C17] no_secret_leak: secrets_clean
@@ -134,3 +146,18 @@ package defaults
 //@   -- C16: the default responder's headers are the content type the renderer reports, nothing else
 //@   ensures headers_fixed: each HeaderSet(_, ?k, _) => k == "Content-Type"
 
+//
+//@ func NewHTTPBodyReader
+//@   property C19 C06
+//@   -- the pages that set a password carry the password policy, in both identifier modes
+//@   ensures password_pages_have_policy:
+//@       (exists i int :: 0 <= i && i < len(mapget(deref(result).Rulesets, "register")) && mapget(deref(result).Rulesets, "register")[i].FieldName == "password" && mapget(deref(result).Rulesets, "register")[i].MinLength > 0) &&
+//@       (exists j int :: 0 <= j && j < len(mapget(deref(result).Rulesets, "recover_end")) && mapget(deref(result).Rulesets, "recover_end")[j].FieldName == "password" && mapget(deref(result).Rulesets, "recover_end")[j].MinLength > 0)
+//
+//@ func URLValuesToMap
+//@   property C06 C01 C19
+//@   -- what a handler reads as the submitted value is the first value of the form field, verbatim
+//@   -- (C06/C01: the password that is hashed on recovery and compared on login is the string that
+//@   -- was submitted - no trimming, folding or truncation on the way)
+//@   invariant loop#1 verbatim_so_far: forall q string :: maphas(values, q) ==> (maphas(form, q) && mapget(values, q) == mapget(form, q)[0])
+//@   ensures verbatim: forall q string :: maphas(result, q) ==> (maphas(form, q) && mapget(result, q) == mapget(form, q)[0])
